@@ -34,10 +34,23 @@ class U(Decl):
         self.lo = lo
         self.hi = hi if hi is not None else (1 << bits) - 1
 
+    def _bits(self):
+        """k if the range is exactly 0 .. 2**k-1 (then the range is structural: a zero-extended k-bit variable)"""
+        if self.lo == 0 and self.hi > 0 and (self.hi + 1) & self.hi == 0 and self.hi.bit_length() < V.W:
+            return self.hi.bit_length()
+        return None
+
     def make(self, name):
+        k = self._bits()
+        if k is not None:
+            import z3
+
+            return SInt(z3.ZeroExt(V.W - k, z3.BitVec(name, k)), 0, self.hi)
         return V.sym_bv(name, self.lo, self.hi)
 
     def constraints(self, v):
+        if self._bits() is not None:
+            return []
         return [V.range_constraint(v)]
 
     def from_model(self, model, v):
@@ -80,10 +93,12 @@ class Bytes(Decl):
         self.mutable = mutable
 
     def make(self, name):
-        return SBytes([V.sym_bv("%s[%d]" % (name, i), 0, 255) for i in range(self.n)], self.mutable)
+        import z3
+
+        return SBytes([SInt(z3.ZeroExt(V.W - 8, z3.BitVec("%s[%d]" % (name, i), 8)), 0, 255) for i in range(self.n)], self.mutable)
 
     def constraints(self, v):
-        return [V.range_constraint(c) for c in v.cells]
+        return []
 
     def from_model(self, model, v):
         return [model.eval(c.e, model_completion=True).as_long() & 0xFF for c in v.cells]
@@ -361,14 +376,18 @@ def run_native(unit, case, inputs_json):
     for r in unit.requires(case, a):
         if not r:
             return None, None, None
-    try:
-        val = unit.run(X, case, a)
-        out = Outcome("return", val)
-    except EngineSignal:
-        raise
-    except BaseException as ex:
-        out = Outcome("raise", exc=ex)
-    clauses = [(p, n, _as_bool(c)) for p, n, c in unit.ensures(case, a, out, X)]
+    import contextlib
+    import io
+
+    with contextlib.redirect_stdout(io.StringIO()):  # the real code may print (print_data, print_cdb)
+        try:
+            val = unit.run(X, case, a)
+            out = Outcome("return", val)
+        except EngineSignal:
+            raise
+        except BaseException as ex:
+            out = Outcome("raise", exc=ex)
+        clauses = [(p, n, _as_bool(c)) for p, n, c in unit.ensures(case, a, out, X)]
     for n, c in [(t[1], t[2]) for t in X.trace if t[0] == "obligation"]:
         clauses.append(("*", n, _as_bool(c)))
     return out, clauses, a
